@@ -13,7 +13,7 @@
    All statements are about X0 = std_expects and any fixes record F0 with [dialogue_repaired F0] (the five
    recovery actions of the repaired sendSingleMsg are present); SmtpSendGenProofs.v contains the obligations
    that the source-derived instance (SmtpSendGen) satisfies both. *)
-From Coq Require Import String Lia ZifyBool ZifyNat ZifyN.
+From Coq Require Import String.
 From Verif Require Import Bytes Textproto SendErr RefServer SmtpSend.
 Open Scope N_scope.
 
@@ -28,10 +28,14 @@ Lemma expect_220 : forall c, expect_ok 220 c = true -> c = 220.
 Proof. intros c; unfold expect_ok; cbn; intros H; apply N.eqb_eq in H; exact H. Qed.
 Lemma expect_25 : forall c, expect_ok 25 c = true -> okclass c = true.
 Proof.
+  (* without lia: keeps the dependency closure that Print Assumptions has to walk small *)
   intros c; unfold expect_ok, okclass; cbn; intros H; apply N.eqb_eq in H.
-  assert (250 <= c < 260).
-  { pose proof (N.div_mod c 10 ltac:(lia)). pose proof (N.mod_lt c 10 ltac:(lia)). lia. }
-  lia.
+  assert (N10 : 10 <> 0) by discriminate.
+  pose proof (N.mul_div_le c 10 N10) as L. pose proof (N.mul_succ_div_gt c 10 N10) as U.
+  rewrite H in L, U. cbn in L, U.
+  apply andb_true_iff. split.
+  - apply N.leb_le. eapply N.le_trans; [|exact L]. discriminate.
+  - apply N.ltb_lt. eapply N.lt_trans; [exact U|]. reflexivity.
 Qed.
 
 (* ---------- the effect of one command on a live, in-step connection ---------- *)
